@@ -243,10 +243,16 @@ package nfsv4
 // unlinks exactly that session and every session is found when the client's
 // lease runs out (C18: no session record is retained for ever).
 //@ func (*nfs41Program).opCreateSession
-//@   props C18
+//@   props C18 C19
 //@   at call min#1 assert the-new-session-is-the-head-of-the-clients-session-list: cis.sessions.next == session
 //@   at call min#1 assert the-old-head-points-back-at-the-new-session: session.next.previous == session
 //@   at call min#1 assert the-new-session-belongs-to-the-client: session.clientIncarnation == cis
+//@   loop 0 invariant len(slots) == i && i <= p.maxForeChanAttrs.CaMaxrequests &&
+//@             (forall k int :: 0 <= k && k < len(slots) ==> slots[k].lastSequenceID == 0 && slots[k].lastResult.status == sequenceCompoundResultSeqMisordered.status &&
+//@                samearray(slots[k].lastResult.resArray, sequenceCompoundResultSeqMisordered.resArray))
+//@   at call Read#1 assert a-slot-that-was-never-used-answers-misordered-to-anything-but-its-first-request:
+//@             len(slots) == p.maxForeChanAttrs.CaMaxrequests && (forall k int :: 0 <= k && k < len(slots) ==> slots[k].lastSequenceID == 0 &&
+//@                slots[k].lastResult.status == sequenceCompoundResultSeqMisordered.status && samearray(slots[k].lastResult.resArray, sequenceCompoundResultSeqMisordered.resArray))
 
 // An NFSv4.0 open-owner is only garbage collected (closing whatever it still has
 // open) when it is unused: a confirmed open-owner that still has more than one
@@ -522,3 +528,15 @@ package nfsv4
 //@   loop 0 exhaustive
 //@   ensures an-unconfirmed-record-leaves-the-confirmed-state-alone:
 //@             old(ccs.client.confirmed) != nil && old(ccs.client.confirmed.confirmation) != ccs ==> old(ccs.client).confirmed == old(ccs.client.confirmed)
+
+// NFSv4.0 LOCK: a retransmitted request gets the reply that was given the first
+// time. For a LOCK that introduces a new lock-owner (open_to_lock_owner) the
+// cached reply of the open-owner is replayed whatever it was: also the
+// successful one that carries the lock state ID the server created, without
+// which the client can never use or release the lock (C19).
+//@ func (*compoundState).opLock
+//@   props C19
+//@   trustcall complete -- the transaction was handed out by startTransaction for this owner and the reply passed to it was just built
+//@   at call startTransaction#1 ghostset replayowed[nil] = ite(r2 != nfsv4.NFS4_OK && (typeis(r1, *nfsv4.Lock4res_NFS4_OK) || typeis(r1, *nfsv4.Lock4res_NFS4ERR_DENIED) || typeis(r1, *nfsv4.Lock4res_default)), 1, 0)
+//@   ensures the-cached-reply-of-an-initial-lock-is-replayed-unchanged: replayowed(nil) == 1 ==> r0 == lastResponse
+//@ ghost map replayowed(ref) int zero
